@@ -78,6 +78,8 @@ class Lin:
         """len(x) with the slicing algebra: len(x[a..]) = len(x)-a, len(x[a..b]) = b-a, len(x[..b]) = b."""
         v = self.expand(v)
         t = v[1] if v[0] == "sym" else None
+        if v[0] == "ref" and v[1] and v[1][0] == "D" and not v[2]:
+            return self.len_of(("sym", v[1][1]))     # reference to what a symbolic pointer points to: that value
         if v[0] == "ref":
             # a reference to a location: its pointee's entry value (slices handed to decoders are immutable)
             return atom(("len", ("sym", ("init", v[1], v[2]))))
